@@ -431,10 +431,18 @@ def _apply_lifting_ite(fn, args, k):
 
 class UFArr:
     """(multi-dimensional) table whose entries are applications of an uninterpreted function to the indices"""
-    __slots__ = ('fn', 'nidx', 'idxs')
+    __slots__ = ('fn', 'nidx', 'idxs', 'dims')
 
-    def __init__(self, fn, nidx, idxs=()):
+    def __init__(self, fn, nidx, idxs=(), dims=None):
         self.fn, self.nidx, self.idxs = fn, nidx, tuple(idxs)
+        self.dims = dims          # extents of the dimensions (when known): lets a small table be iterated element by element
+
+    def elements(self):
+        """the entries along the next dimension as a list (only for a known, small extent)"""
+        k = len(self.idxs)
+        if self.dims is None or k >= len(self.dims) or self.dims[k] > 64:
+            raise Unsupported('iteration over an uninterpreted table of unknown or large extent')
+        return [self.index_step(CI(i, 64)) for i in range(self.dims[k])]
 
     def index_step(self, idx):
         i = bv(idx)
@@ -443,7 +451,7 @@ class UFArr:
         idxs = self.idxs + (i,)
         if len(idxs) == self.nidx:
             return _apply_lifting_ite(self.fn, list(idxs), 0)
-        return UFArr(self.fn, self.nidx, idxs)
+        return UFArr(self.fn, self.nidx, idxs, self.dims)
 
     def ite_with(self, g, other):
         if self.fn is other.fn and self.idxs == other.idxs:
